@@ -472,6 +472,7 @@ struct SmallSetEngine : EngineBase {
       case O_ASSIGN_IL: {
         std::vector<Val> vals;
         for (int q = 0; q < op.rn; ++q) vals.push_back(mkval(op.r[q]));
+        if (op.k == O_RANGE && op.rkind == RK_MSET) multiset_order(vals);
         size_t newc = 0;
         { MonScope mm; Model t(m); if (op.k == O_ASSIGN_IL) t.clear(); for (auto &v : vals) t.insert(v); newc = t.size(); }
         note(fmt("n=%d,%s", op.rn, newc > N && sz0 <= N ? "crosses" : "stays"));
@@ -490,7 +491,7 @@ struct SmallSetEngine : EngineBase {
         size_t newc = 0;
         { MonScope mm; Model t(m); for (auto &v : vals) t.insert(v); newc = t.size(); }
         note(fmt("n=%d,%s", op.i, newc > N && sz0 <= N ? "crosses" : "stays"));
-        with_range<E>(op.rkind, vals, [&](auto f, auto l) { window([&] { s.insert(f, l); }); });
+        with_range<E>(op.rkind == RK_MSET ? static_cast<int>(RK_PTR) : op.rkind, vals, [&](auto f, auto l) { window([&] { s.insert(f, l); }); });
         if (threw) { violation("C04", "model.unexpected_exception", threw_what); return; }
         MonScope mm;
         m.insert(vals.begin(), vals.end());
@@ -770,11 +771,11 @@ struct SmallSetEngine : EngineBase {
 #endif
     // ranges of length <= 3 (all of length 1 and 2, a spread of length 3)
     for (int a = 0; a < keydom; ++a) {
-      Op o; o.k = O_RANGE; o.rn = 1; o.r[0] = a; o.rkind = a % RK_N; ops.push_back(o);
+      Op o; o.k = O_RANGE; o.rn = 1; o.r[0] = a; o.rkind = a % (RK_N + 1); ops.push_back(o);
       for (int b2 = 0; b2 < keydom; ++b2) {
-        Op p; p.k = O_RANGE; p.rn = 2; p.r[0] = a; p.r[1] = b2; p.rkind = (a + b2) % RK_N; ops.push_back(p);
+        Op p; p.k = O_RANGE; p.rn = 2; p.r[0] = a; p.r[1] = b2; p.rkind = (a + b2) % (RK_N + 1); ops.push_back(p);
         for (int c = 0; c < keydom; ++c) {
-          Op q; q.k = O_RANGE; q.rn = 3; q.r[0] = a; q.r[1] = b2; q.r[2] = c; q.rkind = (a + b2 + c) % RK_N; ops.push_back(q);
+          Op q; q.k = O_RANGE; q.rn = 3; q.r[0] = a; q.r[1] = b2; q.r[2] = c; q.rkind = (a + b2 + c) % (RK_N + 1); ops.push_back(q);
         }
         Op il; il.k = O_IL; il.rn = 2; il.r[0] = a; il.r[1] = b2; ops.push_back(il);
         Op as; as.k = O_ASSIGN_IL; as.rn = 2; as.r[0] = a; as.r[1] = b2; ops.push_back(as);
@@ -940,7 +941,7 @@ struct SmallSetEngine : EngineBase {
     o.rn = rng.below(4);
     if (o.k == O_IL || o.k == O_ASSIGN_IL) o.rn = rng.below(4);
     for (int q = 0; q < 3; ++q) o.r[q] = rng.below(keydom);
-    o.rkind = rng.below(RK_N);
+    o.rkind = rng.below(RK_N + 1);
     if (SSInfo<SetA>::kN > 16 && rng.chance(1, 6)) {
       o.k = O_BULK;
       o.i = 2 + static_cast<int>(rng.below(static_cast<uint32_t>(SSInfo<SetA>::kN)));
